@@ -23,44 +23,54 @@ EXTENDS MeshGen
 CONSTANT OriLevel     \* 0 = none of the above, 1 = quick selection of patterns, 2 = all patterns
 
 \* ---- oriented parts ---------------------------------------------------------------------------------------------------------
-AutSeq(e) == SetToSeq(Aut(Fam, e))
-NAut(e) == Cardinality(Aut(Fam, e))
+\* gx: everything derived from the mesh that the operators below need, evaluated ONCE per mesh (a state variable, so that TLC
+\* does not re-evaluate the global numbering at every reference)
+VARIABLE gx
+CS == gx.cells
+\* constant tables (evaluated once)
+AutSeq1 == SetToSeq(Aut(Fam, 1))
+AutSeq2 == SetToSeq(Aut(Fam, 2))
+AutSeq(e) == IF e = 1 THEN AutSeq1 ELSE AutSeq2
+NAut(e) == Len(AutSeq(e))
+FT21 == FaceTable(Fam, 2, 1)                \* local edges of a 2D part entity
+FTD1 == FaceTable(Fam, Dim, 1)
+FTD2 == FaceTable(Fam, Dim, 2)
+FTD(e) == IF e = 1 THEN FTD1 ELSE FTD2
 P2(n) == 2 ^ n
 MaskBit(mask, m) == (mask \div P2(m % 8)) % 2
 
 \* the e-entities of the mesh as tuples in the reference order of (some) cell they belong to
-LocalTuple(c, e, k) == [i \in 1..NVerts(Fam, e) |-> Cells[c][FaceVerts(Fam, Dim, e, k)[i] + 1]]
-TuplesOf(e) == {LocalTuple(c, e, k) : c \in 1..Len(Cells), k \in 0..(NFaces(Fam, Dim, e) - 1)}
-EntTuples(e) == LET L == SetToSeq(EntSets(e)) IN [j \in 1..Len(L) |-> CHOOSE t \in TuplesOf(e) : TRange(t) = L[j]]
-CellTuples(c, e) == LET L == SetToSeq({TRange(LocalTuple(c, e, k)) : k \in 0..(NFaces(Fam, Dim, e) - 1)})
-                    IN [j \in 1..Len(L) |-> CHOOSE t \in TuplesOf(e) : TRange(t) = L[j]]
+LocalTupleOf(CC, c, e, k) == [i \in 1..NVerts(Fam, e) |-> CC[c][FTD(e)[k + 1][i] + 1]]
+TuplesOfCells(CC, e) == {LocalTupleOf(CC, c, e, k) : c \in 1..Len(CC), k \in 0..(Len(FTD(e)) - 1)}
+EntTuplesOf(CC, e) ==
+  LET TT == TuplesOfCells(CC, e)
+      L == SetToSeq({TRange(t) : t \in TT})
+  IN [j \in 1..Len(L) |-> CHOOSE t \in TT : TRange(t) = L[j]]
+EntTuples(e) == IF e = 1 THEN gx.et1 ELSE gx.et2
 
-EdgeSetsOf(G) == {{G[j][FaceVerts(Fam, 2, 1, k)[1] + 1], G[j][FaceVerts(Fam, 2, 1, k)[2] + 1]} :
-                    j \in 1..Len(G), k \in 0..(NFaces(Fam, 2, 1) - 1)}
+EdgeSetsOf(G) == {{G[j][FT21[k][1] + 1], G[j][FT21[k][2] + 1]} : j \in 1..Len(G), k \in 1..Len(FT21)}
 
 \* e = dimension of the part (1 or 2); EL = parent entities (tuples); sy[j] = symmetry applied to EL[j];
 \* mask = directions of the part's edges (2D parts); vn = the part's vertex numbering
 OrientedPart(name, e, EL, sy, mask, vn) ==
   LET G   == [j \in 1..Len(EL) |-> Compose(EL[j], sy[j])]
-      V0  == SortedTuple(UNION {TRange(G[j]) : j \in 1..Len(G)})
+      V0  == SetToSeq(UNION {TRange(G[j]) : j \in 1..Len(G)})
       nv  == Len(V0)
       rot == vn % nv
       rev == (vn \div nv) % 2 = 1
       PV  == [i \in 1..nv |-> LET r == ((i - 1 + rot) % nv) + 1 IN V0[IF rev THEN nv + 1 - r ELSE r]]
-      L(g) == (CHOOSE i \in 1..nv : PV[i] = g) - 1
+      LM  == [g \in Range(PV) |-> (CHOOSE i \in 1..nv : PV[i] = g) - 1]       \* global vertex -> part vertex
       ES  == IF e = 2 THEN SetToSeq(EdgeSetsOf(G)) ELSE << >>
-      ET(m) == LET t == SortedTuple(ES[m]) IN IF MaskBit(mask, m) = 1 THEN << t[2], t[1] >> ELSE t
-      EI(S) == (CHOOSE m \in 1..Len(ES) : ES[m] = S) - 1
-      loc(t) == [i \in 1..Len(t) |-> L(t[i])]
-      top  == [j \in 1..Len(G) |-> loc(G[j])]
-      i10  == IF e = 1 THEN top ELSE [m \in 1..Len(ES) |-> loc(ET(m))]
+      EM  == [m \in 1..Len(ES) |-> LET t == SetToSeq(ES[m]) IN IF MaskBit(mask, m) = 1 THEN << t[2], t[1] >> ELSE t]
+      EI  == [S \in Range(ES) |-> (CHOOSE m \in 1..Len(ES) : ES[m] = S) - 1]
+      top  == [j \in 1..Len(G) |-> [i \in 1..Len(G[j]) |-> LM[G[j][i]]]]
+      i10  == IF e = 1 THEN top ELSE [m \in 1..Len(ES) |-> << LM[EM[m][1]], LM[EM[m][2]] >>]
       i20  == IF e = 2 THEN top ELSE << >>
-      i21  == IF e = 2 THEN [j \in 1..Len(G) |-> [k \in 1..NFaces(Fam, 2, 1) |->
-                               EI({G[j][FaceVerts(Fam, 2, 1, k - 1)[1] + 1], G[j][FaceVerts(Fam, 2, 1, k - 1)[2] + 1]})]]
+      i21  == IF e = 2 THEN [j \in 1..Len(G) |-> [k \in 1..Len(FT21) |-> EI[{G[j][FT21[k][1] + 1], G[j][FT21[k][2] + 1]}]]]
               ELSE << >>
       ents0 == [i \in 1..nv |-> << PV[i] >>]
-      ents1 == IF e = 1 THEN [j \in 1..Len(EL) |-> SortedTuple(TRange(EL[j]))] ELSE [m \in 1..Len(ES) |-> SortedTuple(ES[m])]
-      ents2 == IF e = 2 THEN [j \in 1..Len(EL) |-> SortedTuple(TRange(EL[j]))] ELSE << >>
+      ents1 == IF e = 1 THEN [j \in 1..Len(EL) |-> SetToSeq(TRange(EL[j]))] ELSE [m \in 1..Len(ES) |-> SetToSeq(ES[m])]
+      ents2 == IF e = 2 THEN [j \in 1..Len(EL) |-> SetToSeq(TRange(EL[j]))] ELSE << >>
   IN [name |-> name, deduce |-> "none", topo |-> TRUE,
       ents |-> [d \in 1..(Dim + 1) |-> IF d = 1 THEN ents0 ELSE IF d = 2 THEN ents1 ELSE IF d = 3 THEN ents2 ELSE << >>],
       tidx |-> [i10 |-> i10, i20 |-> i20, i21 |-> i21]]
@@ -70,8 +80,7 @@ PatSym(e, j, p, q) == AutSeq(e)[((j * p + q) % NAut(e)) + 1]
 PatPart(name, e, EL, p, q) ==
   OrientedPart(name, e, EL, [j \in 1..Len(EL) |-> PatSym(e, j, p, q)], 5 * q + 3 * p + 1, q + 2 * p)
 
-TopoDims == {e \in 1..2 : e <= Dim}
-\* single cell: every (entity, code), two edge masks / vertex numberings alternate with the code
+\* single cell: every (entity, code); the edge directions / vertex numberings alternate with the code
 SingleEntityParts(e) ==
   LET EL == EntTuples(e)  A == AutSeq(e)
       C == SetToSeq((1..Len(EL)) \X (1..Len(A)))
@@ -81,22 +90,34 @@ SingleEntityParts(e) ==
 PairCodeParts ==
   LET A == AutSeq(Dim)  C == SetToSeq((1..Len(A)) \X (1..Len(A)))
   IN [x \in 1..Len(C) |-> OrientedPart("o2p" \o ToString(C[x][1]) \o "c" \o ToString(C[x][2]), Dim,
-                                       << Cells[1], Cells[2] >>, << A[C[x][1]], A[C[x][2]] >>, 7 * C[x][1] + C[x][2], C[x][1] + 3 * C[x][2])]
-Patterns == IF OriLevel >= 2 THEN {<<p, q>> : p \in {1, 3}, q \in 0..7} ELSE {<<1, 0>>, <<3, 5>>, <<1, 4>>}
+                                       << CS[1], CS[2] >>, << A[C[x][1]], A[C[x][2]] >>, 7 * C[x][1] + C[x][2], C[x][1] + 3 * C[x][2])]
+Patterns == IF OriLevel >= 2 THEN SetToSeq({<<p, q>> : p \in {1, 3}, q \in 0..7}) ELSE << <<1, 0>>, <<3, 5>>, <<1, 4>> >>
 PatternParts(e, tag, EL) ==
-  LET PS == SetToSeq(Patterns)
-  IN [x \in 1..Len(PS) |-> PatPart("o" \o ToString(e) \o tag \o ToString(PS[x][1]) \o "q" \o ToString(PS[x][2]), e, EL, PS[x][1], PS[x][2])]
-RECURSIVE Flat(_)
-Flat(ss) == IF ss = << >> THEN << >> ELSE Head(ss) \o Flat(Tail(ss))
+  [x \in 1..Len(Patterns) |-> PatPart("o" \o ToString(e) \o tag \o ToString(Patterns[x][1]) \o "q" \o ToString(Patterns[x][2]),
+                                      e, EL, Patterns[x][1], Patterns[x][2])]
+\* the faces of one cell (3D), as parent tuples
+CellFaceTuples(c) == LET ET == EntTuples(2) IN
+  SelectSeq(ET, LAMBDA t : TRange(t) \subseteq TRange(CS[c]))
 
-OrientedParts ==
+OrientedPartsDef ==
   IF OriLevel = 0 THEN << >>
-  ELSE IF Mode = "single" THEN Flat([e \in 1..Cardinality(TopoDims) |-> SingleEntityParts(e)])
-                               \o Flat([e \in 1..Cardinality(TopoDims) |-> PatternParts(e, "a", EntTuples(e))])
+  ELSE IF Mode = "single" THEN SingleEntityParts(1) \o SingleEntityParts(2) \o PatternParts(1, "a", EntTuples(1)) \o PatternParts(2, "a", EntTuples(2))
   ELSE IF Mode = "pair" /\ Dim = 2 THEN PairCodeParts \o PatternParts(1, "a", EntTuples(1))
   ELSE \* 3D pairs, 2D chains: all entities / the surface of one cell, codes by pattern
-       Flat([e \in 1..Cardinality(TopoDims) |-> PatternParts(e, "a", EntTuples(e))])
-       \o (IF Dim = 3 THEN PatternParts(2, "k", CellTuples(2, 2)) ELSE << >>)
+       PatternParts(1, "a", EntTuples(1)) \o PatternParts(2, "a", EntTuples(2))
+       \o (IF Dim = 3 THEN PatternParts(2, "k", CellFaceTuples(2)) ELSE << >>)
+OrientedParts == gx.oparts
+
+InitX ==
+  /\ Init
+  /\ \E g \in {[cells |-> Cells, et1 |-> EntTuplesOf(Cells, 1), et2 |-> EntTuplesOf(Cells, 2)]} :
+       gx = [cells |-> g.cells, et1 |-> g.et1, et2 |-> g.et2, oparts |-> << >>]
+\* second step: the oriented parts (they read gx)
+NextX == /\ gx.oparts = << >> /\ OriLevel > 0
+         /\ gx' = [gx EXCEPT !.oparts = OrientedPartsDef]
+         /\ UNCHANGED cellpts
+SpecX == InitX /\ [][NextX]_<<cellpts, gx>>
+Ready == OriLevel = 0 \/ gx.oparts # << >>
 
 \* sanity of the construction (invariant): every oriented part lists each vertex / edge once and its entities are
 \* re-numberings of the parent entities
@@ -117,14 +138,14 @@ ChartCands ==
   {<<f, b>> \in Facets \X (1..Dim) : IsBoundaryFacet(f) /\ Cardinality({p[b] : p \in FacetPts(f)}) = 1}
 ChartOf(fb, a, sgn) ==
   LET f == fb[1]  b == fb[2]
-      S == {Cells[1][v + 1] : v \in TRange(FaceVerts(Fam, Dim, Dim - 1, f))}
+      S == {CS[1][v + 1] : v \in TRange(FaceVerts(Fam, Dim, Dim - 1, f))}
   IN [part |-> "gch", a |-> a, b |-> b, c |-> (CHOOSE p \in FacetPts(f) : TRUE)[b], neg |-> (sgn < 0), s |-> 4,
       ents |-> OneEnt(Dim - 1, S)]
 ChartConfigs ==
   LET CC == SetToSeq(ChartCands) IN
   [x \in 1..Len(CC) |-> LET b == CC[x][2]  a == (b % Dim) + 1 IN ChartOf(CC[x], a, IF x % 2 = 0 THEN 1 ELSE -1)]
 
-EmitX == PrintT(ToJson([kind |-> "mesh", fam |-> Fam, dim |-> Dim, mode |-> Mode,
-                        src |-> [raw |-> [X |-> X, cs |-> 0, cells |-> Cells]], parts |-> Parts, oparts |-> OrientedParts,
+EmitX == Ready => PrintT(ToJson([kind |-> "mesh", fam |-> Fam, dim |-> Dim, mode |-> Mode,
+                        src |-> [raw |-> [X |-> X, cs |-> 0, cells |-> CS]], parts |-> Parts, oparts |-> OrientedParts,
                         modes |-> Modes, charts |-> ChartConfigs]))
 =============================================================================
